@@ -27,6 +27,6 @@ echo "suite_ok=$SUITE demo_with_change_exit=$WITH demo_without_change_exit=$WITH
 cd $W && git apply $OUT/patch.diff || { echo "patch does not apply"; exit 3; }
 cd /verif && VERIF_REPO=$W VERIF_EVIDENCE_DIR=/tmp/ev_$ID VERIF_GEN_DIR=/tmp/gen_$ID VERIF_REPLAY_DIR=$OUT/replays ./check $PROP > $OUT/check.out 2>&1; CE=$?
 git -C $W checkout -q -- .
-rm -rf /tmp/ev_$ID /tmp/gen_$ID
+rm -rf /tmp/ev_$ID /tmp/gen_$ID /tmp/gen_$ID-noiso
 echo "check_exit=$CE" | tee -a $LOG
 tail -4 $OUT/check.out
